@@ -136,6 +136,7 @@ pub fn fmt_case(u: &mut Unstructured) -> R<FmtCase> {
         container,
         handler: u.arbitrary()?,
         handler_panic_at: None,
+        reenter: 0,
     };
     let mut calls = Vec::new();
     let nc = u.int_in_range(1usize..=6)?;
